@@ -480,3 +480,50 @@ def c08_block_counts_work_once(ctx, v):
             seen += 1
         v.covers_total += 1
         v.covers_sat += 1 if seen else 0
+
+
+def c08_tx_validate_path_gate(ctx, v):
+    """Transaction::validate for every type whose routing path is turned into work for the block
+    creator and into router-payout eligibility and that reaches the user-originated section
+    (Normal, GoldenTicket, Vip, Bound), 1 input x 1..=2 outputs: it answers true only if
+    validate_routing_path was asked about this transaction and said yes — a path that is not
+    cryptographically valid and contiguous delivers no accepted work for any of those types."""
+    import re
+    from . import obl_c02
+    val = ctx.body(r"transaction::<impl at [^>]*>::validate$")
+    ok = 0
+    for nout in (1, 2):
+        ex = ctx.executor(loop_bound=5, inline="auto", max_paths=6000, no_inline=[r"verify_signature$", r"validate_routing_path$", r"fmt", r"to_hex", r"to_base58"])
+        ex.pure = [r".*"]
+        L.install_slip_key_model(ctx, ex)
+        tx, ins, outs_, ttype, pre = obl_c02._tx(ctx, ex, 1, nout)
+        user = z3.Or(*[L.enum_is(ctx, ttype, "TransactionType", t) for t in ("Normal", "GoldenTicket", "Vip", "Bound")])
+        st = S.State()
+        st.pc.extend(pre + [user])
+        tcell = S.Cell(tx)
+        outs = ex.run(val, [S.Ref(tcell), S.Ref(S.Cell(S.Opaque("utxoset", "AHashMap"))), S.Ref(S.Cell(S.Opaque("blockchain", "Blockchain"))), z3.BoolVal(True)], st)
+        v.paths += len(outs)
+        for o in outs:
+            if o.kind in ("unsupported", "unwound", "path-limit"):
+                return v.undecided("%s %s" % (o.kind, o.info))
+            if o.kind != "return" or not z3.is_bool(o.value):
+                continue
+            own = o.state.frames[0].locals["_1"].v
+            good = []
+            for c in o.events:
+                if c[0] == "call" and re.search(r"validate_routing_path$", c[1]):
+                    a = c[2][0] if len(c[2]) else None
+                    if isinstance(a, S.Ref) and isinstance(own, S.Ref) and a.cell is own.cell and a.path == own.path:
+                        good.append(c[3] if z3.is_bool(c[3]) else (c[3].bv != 0))
+            routed = z3.Or(*good) if good else z3.BoolVal(False)
+            r, m = ex.model_for(o.pc, z3.And(o.value, z3.Not(routed)))
+            v.queries += 1
+            if r == z3.sat:
+                tname = [nm for nm, d in ctx.enums["TransactionType"] if d == m.eval(ttype.discr.bv, model_completion=True).as_long()]
+                v.fail("Transaction::validate accepts a %s transaction although its routing path was not validated (its hops still count as work for the creator and as payout candidates)" % (tname[0] if tname else "?"))
+            elif r == z3.unsat:
+                ok += 1
+            else:
+                return v.undecided("solver: no verdict")
+    v.covers_total += 1
+    v.covers_sat += 1 if ok else 0
